@@ -15,7 +15,69 @@ pub struct VerifRecord {
     pub refcount: u32,
 }
 
+/// Where the bytes of a key's current generation are found right now.
+#[derive(Debug, Clone)]
+pub struct VerifTiers {
+    /// address of the record: with the timestamp, the identity of the generation
+    pub id: usize,
+    pub timestamp: u64,
+    pub sector: u64,
+    /// `record.value`
+    pub resident: Option<Vec<u8>>,
+    /// what a device read for this generation returns (its own extent, or the extent
+    /// of the generation it still borrows its bytes from)
+    pub on_disk: Option<Vec<u8>>,
+    /// the read-cache entry tagged with this generation
+    pub cached: Option<Vec<u8>>,
+}
+
 impl FeoxStore {
+    /// The tiers holding the current generation of `key`; touches neither the read
+    /// cache's reference bits nor the statistics.
+    pub fn verif_tiers(&self, key: &[u8]) -> Option<VerifTiers> {
+        let record = self.hash_table.read(key, |_, record| Arc::clone(record))?;
+        let on_disk = self.verif_device_value(&record);
+        let cached = self
+            .cache
+            .as_ref()
+            .and_then(|cache| cache.verif_peek_for_record(key, &record))
+            .map(|value| value.to_vec());
+        Some(VerifTiers {
+            id: Arc::as_ptr(&record) as usize,
+            timestamp: record.timestamp,
+            sector: record.sector.load(Ordering::Acquire),
+            resident: record.get_value().map(|value| value.to_vec()),
+            on_disk,
+            cached,
+        })
+    }
+
+    /// The value bytes the device holds for this generation (resident bytes are not
+    /// consulted): read from its own extent, or from the extent it borrows.
+    fn verif_device_value(&self, record: &Arc<crate::core::record::Record>) -> Option<Vec<u8>> {
+        use crate::storage::format::{get_format_ref, sector_holds_record};
+        let mut source = Arc::clone(record);
+        while source.sector.load(Ordering::Acquire) == 0 {
+            source = source.value_source()?;
+        }
+        let sector = source.sector.load(Ordering::Acquire);
+        let format = get_format_ref(self.format_version);
+        let total = format.total_size(source.key.len(), source.value_len);
+        let sectors = total.div_ceil(crate::constants::FEOX_BLOCK_SIZE) as u64;
+        let data = self
+            .disk_io
+            .as_ref()?
+            .read()
+            .read_sectors_sync(sector, sectors)
+            .ok()?;
+        if !sector_holds_record(&data, &source) {
+            return None;
+        }
+        let offset = format.value_offset(source.key.len());
+        let end = offset.checked_add(source.value_len)?;
+        (end <= data.len()).then(|| data[offset..end].to_vec())
+    }
+
     /// Every record reachable from the hash index, sorted by key.
     pub fn verif_snapshot(&self) -> Vec<VerifRecord> {
         let mut records = Vec::new();
